@@ -194,6 +194,10 @@ def unforge_address(data: bytes) -> str:
         b'\x00\x03': b'tz4',
     }
 
+    if len(data) == 21:
+        # key_hash: curve tag + 20-byte hash (must not be confused with the 22-byte address forms)
+        return base58_encode(data[1:], tz_prefixes[b'\x00' + data[:1]]).decode()
+
     for bin_prefix, tz_prefix in tz_prefixes.items():
         if data.startswith(bin_prefix):
             return base58_encode(data[2:], tz_prefix).decode()
